@@ -26,7 +26,8 @@ Definition pact (j : pj) (a : paction) : option pj :=
   | PARecv => if cpend j || cclosed j then None else Some (mkPJ (pp j) (wq j) true (cclosed j))
   | PACancel => match pstep (pp j) PCancel with
                 | Some p => Some (mkPJ p (wq j) (cpend j) (cclosed j))
-                | None => None end
+                | None => Some j     (* already cancelled (by PullID itself): nothing changes *)
+                end
   end.
 
 Definition last_index (j : pj) : nat := pred (List.length (p_stages (pp j))).
@@ -127,22 +128,7 @@ Fixpoint script_clean (strict_close : bool) (cancelled : bool) (script : list (p
 Definition pipe_ok (c : pipecase) : bool :=
   (pc_panics c =? 0) && (pc_leaks c =? 0) && script_clean true false (pc_script c).
 
-(* known finding 1: a PullID subscription whose item is removed (its channel is closed by the
-   REMOVE, not by a cancel): the goroutines of the inner Pull stay until the context is
-   cancelled and, with backpressure, the second later write blocks until then *)
-Fixpoint removed_before_cancel (id : Z) (script : list (paction * list Z)) : bool :=
-  match script with
-  | [] => false
-  | (PACancel, _) :: _ => false
-  | (PASend m, _) :: r => ((m_id m =? id) && (m_kind m =? 3)) || removed_before_cancel id r
-  | _ :: r => removed_before_cancel id r
-  end.
-
-Definition pipe_known (c : pipecase) : option Z :=
-  match last (pc_stages c) StDone with
-  | StPullID id _ =>
-      if removed_before_cancel id (pc_script c)
-         && (pc_panics c =? 0) && (pc_leaks c =? 0) && script_clean false false (pc_script c)
-      then Some 1 else None
-  | _ => None
-  end.
+(* Fixed by /repo 728882a (was known finding 1): a PullID subscription whose item is removed
+   left the goroutines of the inner Pull running until the context was cancelled and, with
+   backpressure, blocked the second later write.  No class is excused any more. *)
+Definition pipe_known (c : pipecase) : option Z := None.
